@@ -205,7 +205,7 @@ def draw_exclusion(draw, n, links):
         return "none", None if draw(st.booleans()) else []
     mode = draw(st.sampled_from(["none", "none", "sparse", "dense", "cut", "cut", "all"]))
     if mode == "none":
-        return mode, (None if draw(st.booleans()) else [])
+        return mode, (None if draw(st.integers(0, 3)) else [])
     if mode == "all":
         return mode, [list(c) for c in carriers]
     if mode in ("sparse", "dense"):
@@ -257,7 +257,10 @@ def edge_tree_case(draw):
     mod = Model(mc)
     n, links = mod.links("vertex")
     mode, avoid = draw_exclusion(draw, n, links)
-    c = {"mesh": mc, "root": draw_root(draw, n), "avoid_boundary": draw(st.integers(0, 2)) == 0,
+    ab = draw(st.booleans())
+    if mc["kind"] == "surface" and draw(st.integers(0, 3)) == 0:
+        mode, avoid, ab = "none", None, True           # border avoidance alone (no avoid_edges argument) on a surface
+    c = {"mesh": mc, "root": draw_root(draw, n), "avoid_boundary": ab,
          "avoid": avoid, "avoid_mode": mode, "sort": draw(st.booleans())}
     c.update(draw_history(draw, n))
     c["avoid_boundary2"] = draw(st.booleans())
